@@ -797,3 +797,41 @@ Proof.
   rewrite T. replace (mkTx (t_nonce t) (t_price t) (t_gas t) (t_to t) (t_value t) (t_data t) (t_v t) (t_r t) (t_s t)) with t by now destruct t.
   now rewrite Acc.
 Qed.
+
+(* ---------- 12. one RLP encoding per transaction ---------- *)
+Lemma item_to_uint_inv bits x n : item_to_uint bits x = Some n -> x = uint_item n.
+Proof.
+  destruct x as [s|l]; cbn [item_to_uint]; [|discriminate].
+  destruct (no_lead0 s) eqn:NL; cbn [andb]; [|discriminate].
+  destruct ((bits =? 0) || (lenN s * 8 <=? bits)); [|discriminate].
+  intros E. injection E as <-. unfold uint_item. now rewrite be_of_N_of_be.
+Qed.
+
+Lemma item_to_addr_inv x o : item_to_addr x = Some o -> x = to_item o.
+Proof.
+  destruct x as [s|l]; cbn [item_to_addr]; [|discriminate].
+  destruct s as [|c s]; [intros E; injection E as <-; reflexivity|].
+  destruct (lenN (c :: s) =? 20); [|discriminate]. intros E. injection E as <-. reflexivity.
+Qed.
+
+(* whatever decodes as a transaction is exactly that transaction's canonical encoding: two
+   different byte strings never decode to the same transaction, and tx_hash t = H b *)
+Theorem decode_tx_canonical b t : decode_tx b = Some t -> b = encode_tx t.
+Proof.
+  unfold decode_tx, encode_tx. destruct (decode_exact b) as [x|] eqn:D; [|discriminate].
+  apply decode_exact_canonical in D. intros T. rewrite D. f_equal.
+  destruct x as [s|l]; [discriminate|]. cbn [tx_of_item] in T.
+  destruct l as [|n [|p [|g [|to [|v [|d [|sv [|sr [|ss [|extra l]]]]]]]]]]; try discriminate.
+  destruct (item_to_uint 64 n) eqn:E1; [|discriminate].
+  destruct (item_to_uint 0 p) eqn:E2; [|discriminate].
+  destruct (item_to_uint 64 g) eqn:E3; [|discriminate].
+  destruct (item_to_addr to) eqn:E4; [|discriminate].
+  destruct (item_to_uint 0 v) eqn:E5; [|discriminate].
+  destruct (item_to_bytes d) eqn:E6; [|discriminate].
+  destruct (item_to_uint 0 sv) eqn:E7; [|discriminate].
+  destruct (item_to_uint 0 sr) eqn:E8; [|discriminate].
+  destruct (item_to_uint 0 ss) eqn:E9; [|discriminate].
+  injection T as <-. unfold tx_item, sig_fields. cbn [app t_nonce t_price t_gas t_to t_value t_data t_v t_r t_s].
+  apply item_to_uint_inv in E1, E2, E3, E5, E7, E8, E9. apply item_to_addr_inv in E4.
+  destruct d as [ds|]; [|discriminate]. cbn in E6. injection E6 as <-. now subst.
+Qed.
